@@ -71,7 +71,12 @@ RCP<const Basic> Basic::loads(const std::string &serialized)
     RCP<const Basic> obj;
     std::istringstream iss(serialized);
     RCPBasicAwareInputArchive<cereal::PortableBinaryInputArchive> iarchive{iss};
-    iarchive(major, minor);
+    try {
+        iarchive(major, minor);
+    } catch (cereal::Exception &e) {
+        // truncated input: report it as a library exception
+        throw SerializationError(e.what());
+    }
     if (major != SYMENGINE_MAJOR_VERSION or minor != SYMENGINE_MINOR_VERSION) {
         throw SerializationError(StreamFmt()
                                  << "SymEngine-" << SYMENGINE_MAJOR_VERSION
@@ -80,7 +85,11 @@ RCP<const Basic> Basic::loads(const std::string &serialized)
                                  << "created using SymEngine-" << major << "."
                                  << minor << ".");
     }
-    iarchive(obj);
+    try {
+        iarchive(obj);
+    } catch (cereal::Exception &e) {
+        throw SerializationError(e.what());
+    }
     return obj;
 #else
     throw NotImplementedError("Serialization not implemented in no-rtti mode");
